@@ -16,3 +16,15 @@ package strutil
 //@   ensures [no-meta-identity] all(k, 0, len(keys), !inputrc.ismeta(keys[k])) && clean(keys) ==> result == str(keys)
 //@   loop 1 invariant 0 <= i && i <= len(keys) && (all(k, 0, len(keys), !inputrc.ismeta(keys[k])) ==> converted == keys[:i])
 //@   loop 1 decreases len(keys) - i
+
+//@ func Quote
+//@   props C02 C01
+//@   terminates
+//@   pure
+//@   ensures [printable-ascii-as-is] 32 <= char && char <= 126 ==> result0 == unit(char) && result1 == 1
+
+//@ func SurroundType
+//@   props C02 C01
+//@   terminates
+//@   pure
+//@   ensures result0 <==> (char == '{' || char == '}' || char == '(' || char == ')' || char == '[' || char == ']' || char == '<' || char == '"' || char == '\'')
